@@ -481,6 +481,51 @@ func (g *gen) corpus() {
 	}
 }
 
+// exhaustiveFlags: every combination of buffered x bufferedSort x base mode x prefix mode (144), with and
+// without a base, with and without a prefix table, on three fixed graphs (plain, tree, buffered-triples).
+func (g *gen) exhaustiveFlags() {
+	base := "http://e/a/b"
+	table := iri.PrefixMappingList{{Prefix: "ex", Expanded: "http://e/"}, {Prefix: "", Expanded: "http://e/a#"}, {Prefix: "xsd", Expanded: vh.XSD}}
+	lit := func(lex, dt string) vh.GTerm { return vh.GTerm{Kind: vh.KLit, Lex: lex, DT: dt} }
+	ts := []vh.GQuad{
+		{S: iriT("http://e/a/c"), P: iriT(rdfType), O: iriT("http://e/a#C")},
+		{S: iriT("http://e/a/c"), P: iriT("http://e/p.q"), O: lit("5", vh.XSD+"integer")},
+		{S: iriT("http://e/a/c"), P: iriT("http://e/p.q"), O: lit("5", vh.XSD+"long")},
+		{S: bnT(0), P: iriT("http://e/a#r"), O: bnT(1)},
+		{S: bnT(1), P: iriT("http://e/a#r"), O: vh.GTerm{Kind: vh.KLit, Lex: "x", DT: vh.RDFLangString, Lang: "en-Latn-GB"}},
+		{S: bnT(1), P: iriT("http://e/a/b"), O: iriT("http://other.example/z")},
+		{S: bnT(2), P: iriT(rdfFst), O: lit("", vh.XSDString)},
+		{S: bnT(2), P: iriT(rdfRst), O: iriT(rdfNil)},
+		{S: iriT("http://e/a/b#frag"), P: iriT("http://e/l"), O: bnT(2)},
+	}
+	n := 0
+	for buffered := -1; buffered <= 1; buffered++ {
+		for sort := -1; sort <= 1; sort++ {
+			for bm := -1; bm <= 2; bm++ {
+				for pm := -1; pm <= 2; pm++ {
+					for withBase := 0; withBase < 2; withBase++ {
+						for withTable := 0; withTable < 2; withTable++ {
+							for _, kind := range []byte{'t', 'b'} {
+								c := &caseT{kind: kind, labels: map[int]string{}, tag: "flags", ts: ts}
+								c.cfg = cfgT{buffered: buffered, sort: sort, bm: bm, pm: pm}
+								if withBase == 1 {
+									c.cfg.base = &base
+								}
+								if withTable == 1 {
+									c.cfg.prefixes = table
+								}
+								g.run(c)
+								n++
+							}
+						}
+					}
+				}
+			}
+		}
+	}
+	g.rep.Exhaustive = append(g.rep.Exhaustive, fmt.Sprintf("every combination of buffered {unset,false,true} x bufferedSort {unset,false,true} x base directive mode {unset,@,SPARQL,disabled} x prefix directive mode (same four) x base {none, set} x prefix table {none, set} x {AddTriple, BufferedTriplesEncoder} on a fixed 9-triple graph: %d documents", n))
+}
+
 func (g *gen) flushIfLarge() {
 	if len(g.items) >= 200000 {
 		g.flush()
@@ -583,9 +628,10 @@ func main() {
 			}
 		}
 		g.corpus()
-		n := 20000 * *scale
+		g.exhaustiveFlags()
+		n := 60000 * *scale
 		if *tier == "thorough" {
-			n = 600000 * *scale
+			n = 2000000 * *scale
 		}
 		g.cases(n)
 	}
